@@ -226,16 +226,16 @@ func (srv *Srv) walkPost(req *SrvReq) {
 		return
 	}
 
+	// Don't retain the fid if only a partial walk succeeded
 	n := len(rc.Wqid)
+	if n != len(req.Tc.Wname) {
+		return
+	}
+
 	if n > 0 {
 		req.Newfid.Type = rc.Wqid[n-1].Type
 	} else {
 		req.Newfid.Type = req.Fid.Type
-	}
-
-	// Don't retain the fid if only a partial walk succeeded
-	if n != len(req.Tc.Wname) {
-		return
 	}
 
 	if req.Newfid.fid != req.Fid.fid {
